@@ -41,7 +41,11 @@ func loadDir(root string) fstest.MapFS {
 		}
 		rel, _ := filepath.Rel(root, p)
 		b, _ := os.ReadFile(p)
-		m[filepath.ToSlash(rel)] = &fstest.MapFile{Data: b, Mode: 0644, ModTime: info.ModTime()}
+		mt := info.ModTime()
+		if fi, err := os.Stat(p); err == nil { // a symbolic link counts as the file it names
+			mt = fi.ModTime()
+		}
+		m[filepath.ToSlash(rel)] = &fstest.MapFile{Data: b, Mode: 0644, ModTime: mt}
 		return nil
 	})
 	return m
@@ -111,6 +115,17 @@ func execCli(raw json.RawMessage) any {
 	for _, f := range in.Files {
 		p := filepath.Join(root, filepath.FromSlash(f.Path))
 		os.MkdirAll(filepath.Dir(p), 0755)
+		if f.LinkTo != "" {
+			// the configuration lives in a file without a configuration suffix; the directory entry is a symbolic link to it
+			tp := filepath.Join(root, filepath.FromSlash(f.LinkTo))
+			os.MkdirAll(filepath.Dir(tp), 0755)
+			must(0, os.WriteFile(tp, []byte(f.Text), 0644))
+			mt := base.Add(-time.Duration(f.Age) * time.Second)
+			os.Chtimes(tp, mt, mt)
+			rel, _ := filepath.Rel(filepath.Dir(p), tp)
+			must(0, os.Symlink(rel, p))
+			continue
+		}
 		must(0, os.WriteFile(p, []byte(f.Text), 0644))
 		mt := base.Add(-time.Duration(f.Age) * time.Second)
 		os.Chtimes(p, mt, mt)
@@ -242,6 +257,54 @@ func genCli(yield func(any)) {
 			}
 			yield(CliIn{Files: files, Steps: []CliStep{{Op: "run", Flags: fl, Answer: "y\n"}, {Op: "run", Flags: fl, Answer: "y\n"}}})
 		}
+	}
+	// the prompt: a built root -> leaf hierarchy whose root artifact is deleted, so that every strategy with
+	// generate-missing re-creates the root and must *replace* the leaf; each flag spelling x each answer
+	twoTier := func() []FileIn {
+		return []FileIn{certFile("root.yaml", tinyCfg("Prompt Root", "", ""), true), certFile("users/leaf.yaml", tinyCfg("Prompt Leaf", "root", ""), true)}
+	}
+	for _, fl := range [][]string{{}, {"-c=false"}, {"--generate-changed=false"}, {"-e"}, {"-o"}, {"-eo"}, {"-a"}} {
+		for _, ans := range answers {
+			yield(CliIn{Files: twoTier(), Steps: []CliStep{{Op: "run", Flags: []string{}, Answer: ""}, {Op: "delete", Path: "root.pem"},
+				{Op: "run", Flags: fl, Answer: ans}, {Op: "run", Flags: []string{}, Answer: "y\n"}, {Op: "run", Flags: []string{}, Answer: "n\n"}}})
+		}
+	}
+	// which flag regenerates what: after a full build, one reason at a time is made true for the leaf
+	// (config file touched / config edited / artifact deleted), then each flag spelling is run with consent
+	for _, reason := range []string{"touch", "edit", "delete", "none"} {
+		for _, fl := range flagSets {
+			files := twoTier()
+			steps := []CliStep{{Op: "run", Flags: []string{}, Answer: ""}}
+			switch reason {
+			case "touch":
+				steps = append(steps, CliStep{Op: "touch", Path: "users/leaf.yaml"})
+			case "edit":
+				f := certFile("users/leaf.yaml", tinyCfg("Prompt Leaf Renamed", "root", ""), true)
+				steps = append(steps, CliStep{Op: "write", File: &f})
+			case "delete":
+				steps = append(steps, CliStep{Op: "delete", Path: "users/leaf.pem"})
+			}
+			steps = append(steps, CliStep{Op: "run", Flags: fl, Answer: "y\n"}, CliStep{Op: "run", Flags: fl, Answer: "y\n"}, CliStep{Op: "run", Flags: []string{}, Answer: "y\n"})
+			yield(CliIn{Files: files, Steps: steps})
+		}
+	}
+	// configuration files that are symbolic links (to files without a configuration suffix): they count like regular ones
+	for k := 0; k < 4; k++ {
+		root := certFile("root.yaml", tinyCfg("Linked Root", "", ""), true)
+		leaf := certFile("users/leaf.yaml", tinyCfg("Linked Leaf", "root", ""), true)
+		switch k {
+		case 0:
+			leaf.LinkTo = "store/leaf.conf"
+		case 1:
+			root.LinkTo = "store/root.conf"
+		case 2: // a linked configuration with an unknown issuer: the hierarchy must be refused
+			leaf = certFile("users/leaf.yaml", tinyCfg("Linked Leaf", "nobody", ""), true)
+			leaf.LinkTo = "store/leaf.conf"
+		case 3: // a linked configuration that repeats an alias
+			leaf = certFile("users/leaf.yaml", tinyCfg("Linked Leaf", "", "root"), true)
+			leaf.LinkTo = "store/leaf.conf"
+		}
+		yield(CliIn{Files: []FileIn{root, leaf}, Steps: []CliStep{{Op: "run", Flags: []string{}, Answer: "y\n"}, {Op: "run", Flags: []string{"-a"}, Answer: "y\n"}}})
 	}
 	for n := 0; n < pick(60, 1200); n++ {
 		size := 1 + rng.Intn(3)
